@@ -338,6 +338,12 @@ Definition ret_seen (row : list gv) : list jobs :=
 Definition ret_hist (rows : list (list gv)) (calls : list Z) : list (list jobs) :=
   map (fun i => ret_seen (nth (Z.to_nat i) rows [])) calls.
 
+(* a Go value of a NAMED scalar type (type T uint64, int8, float32, bool, string ...)
+   reaching a script: the kind and the exact value are kept (toValue's reflect
+   branch), so the script sees the nearest double / the bool / the string, Export
+   gives back a value of that kind, and a parameter of that kind receives it unchanged *)
+Definition named_seen (g : gv) : jobs * gv * cres := (ret_one g, g, CV g).
+
 (* ---- re-entrancy: script code that runs while the arguments of a call are
    being converted (toString of an object given for a string parameter, a
    getter read while a map / struct / slice parameter is built) may call
